@@ -121,15 +121,22 @@ for u in UNARY:
     reg(u, lambda c, u=u: (lambda: getattr(c.td, u)()))
 for b in BINARY:
     def _bin(c, b, inplace):
+        """operand: tensordict / python scalar / 0-d tensor; optional kwargs of the method: alpha= (add, sub), default= (out-of-place, tensordict operand)"""
         mode = c.vs % 3
+        kw_sel = (c.vs // 3) % 3
         if mode == 0:
             o = c.other()
         elif mode == 1:
             o = 1.5
         else:
             o = c.tensor(()) if b != "pow" else 2.0
+        kw = {}
+        if kw_sel == 1 and b in ("add", "sub"):
+            kw["alpha"] = 2.0
+        elif kw_sel == 2 and not inplace and mode == 0 and b not in ("pow",):
+            kw["default"] = 0.5
         name = b + ("_" if inplace else "")
-        return lambda: getattr(c.td, name)(o)
+        return lambda: getattr(c.td, name)(o, **kw)
     reg(b + "_", lambda c, b=b: _bin(c, b, True))
     reg(b, lambda c, b=b: _bin(c, b, False))
 
